@@ -252,9 +252,9 @@ def analyse(repo: Repo, forbidden: Iterable[int], sanitizers=("format_timestamp"
     leaves the loop's value variable clean, the loop cannot stop early)."""
     from .x_http import norm_func
 
-    from .x_objalias import subst_object_aliases
+    from .x_objalias import subst_object_aliases, inline_constants
 
-    fi = subst_object_aliases(norm_func(repo, repo.func(WEB, "RequestHandler.set_cookie"), depth=3, no_inline={"_convert_header_value"}))
+    fi = inline_constants(subst_object_aliases(norm_func(repo, repo.func(WEB, "RequestHandler.set_cookie"), depth=3, no_inline={"_convert_header_value"})))
     forbidden = list(forbidden)
     cands = candidate_loops(repo, fi)
     sources = text_params(fi)
